@@ -463,6 +463,7 @@ def replay(prop, path):
         log("nothing to replay (no chain stored)")
         return 2
     chk = vlib.Check(prop + "-replay", "quick")
+    chk.findings = vlib.load_findings(prop)
     rr = vlib.tlc(SPECD, "NamingReplay", "MC_naming_replay.cfg", timeout=3600)
     meta, all_lines = gn.parse_tlc_output(rr.out)
     model = gn.Model(meta, all_lines)
